@@ -220,6 +220,65 @@ func genState(repo string) (string, error) {
 	}
 	sb.WriteString(strings.Join(rows, ";\n"))
 	sb.WriteString("\n].\n")
+	// ---- instance-level state: the fields of the struct types of these packages that are maps or sync primitives (caches
+	// of a PackageSet / a parser / a resolver live here, not in package-level variables)
+	var frows []string
+	for _, dir := range orderDirs {
+		tp, err := loadTyped(repo, dir)
+		if err != nil {
+			return "", err
+		}
+		short := dir[strings.LastIndex(dir, "/")+1:]
+		if dir == "internal/bcl/internal/walker/schema" {
+			short = "walker/schema"
+		}
+		if dir == "internal/bcl" {
+			short = "bcl"
+		}
+		var prows []string
+		for _, f := range tp.files {
+			for _, d := range f.Decls {
+				gd, ok := d.(*ast.GenDecl)
+				if !ok || gd.Tok != token.TYPE {
+					continue
+				}
+				for _, sp := range gd.Specs {
+					ts, ok := sp.(*ast.TypeSpec)
+					if !ok {
+						continue
+					}
+					st, ok := ts.Type.(*ast.StructType)
+					if !ok || st.Fields == nil {
+						continue
+					}
+					for _, fl := range st.Fields.List {
+						tv, ok := tp.info.Types[fl.Type]
+						if !ok {
+							continue
+						}
+						k := typeKind(tv.Type)
+						if k != "map" && k != "sync" && k != "chan" {
+							continue
+						}
+						names := fl.Names
+						if len(names) == 0 {
+							prows = append(prows, fmt.Sprintf("  (%s, %s, %s, %s)", coqStr(short), coqStr(ts.Name.Name), coqStr("<embedded>"), coqStr(k)))
+						}
+						for _, id := range names {
+							prows = append(prows, fmt.Sprintf("  (%s, %s, %s, %s)", coqStr(short), coqStr(ts.Name.Name), coqStr(id.Name), coqStr(k)))
+						}
+					}
+				}
+			}
+		}
+		sort.Strings(prows)
+		frows = append(frows, prows...)
+	}
+	sb.WriteString("(* instance-level state: every field of a struct type of these packages whose type is a map, a channel or a sync\n")
+	sb.WriteString("   primitive: (package, struct type, field, kind) *)\n")
+	sb.WriteString("Definition fields : list (string * string * string * string) := [\n")
+	sb.WriteString(strings.Join(frows, ";\n"))
+	sb.WriteString("\n].\n")
 	return sb.String(), nil
 }
 
